@@ -1555,11 +1555,15 @@ func verifPartitionSMF(m Message) (n int) {
 //@ ensures [P:C01] old(len(*t) > 0 && isEOT((*t)[len(*t)-1].Message)) ==> *t == old(*t)
 //@ ensures [P:C01] !old(len(*t) > 0 && isEOT((*t)[len(*t)-1].Message)) ==> (len(*t) == old(len(*t)) + len(msgs) && forall i int :: 0 <= i && i < old(len(*t)) ==> (*t)[i] == old((*t)[i]))
 //@ ensures [P:C01] !old(len(*t) > 0 && isEOT((*t)[len(*t)-1].Message)) ==> forall k int :: 0 <= k && k < len(msgs) ==> ((*t)[old(len(*t)) + k].Message == msgs[k] && (*t)[old(len(*t)) + k].Delta == (k == 0 ? deltaticks : 0))
+// (the events land in a new backing array: append in the model always reallocates, M2)
+//@ ensures [H] (!old(len(*t) > 0 && isEOT((*t)[len(*t)-1].Message)) && len(msgs) > 0) ==> fresh(*t)
+//@ ensures [H] len(msgs) == 0 ==> *t == old(*t)
 //@ ensures [P:C01] old(wfTrack(*t)) ==> wfTrack(*t)
 //@ ensures [P:C05] (old(nonEmptyT(*t)) && forall k int :: 0 <= k && k < len(msgs) ==> len(msgs[k]) >= 1) ==> nonEmptyT(*t)
 //@ loop 0 invariant -1 <= rangeindex && rangeindex < len(msgs)
 //@ loop 0 invariant !old(len(*t) > 0 && isEOT((*t)[len(*t)-1].Message))
 //@ loop 0 invariant len(*t) == old(len(*t)) + rangeindex + 1
+//@ loop 0 invariant (rangeindex == -1 ==> *t == old(*t)) && (rangeindex >= 0 ==> fresh(*t))
 //@ loop 0 invariant forall i int :: 0 <= i && i < old(len(*t)) ==> (*t)[i] == old((*t)[i])
 //@ loop 0 invariant forall k int :: 0 <= k && k <= rangeindex ==> ((*t)[old(len(*t)) + k].Message == msgs[k] && (*t)[old(len(*t)) + k].Delta == (k == 0 ? old(deltaticks) : 0))
 //@ loop 0 invariant deltaticks == (rangeindex + 1 == 0 ? old(deltaticks) : 0)
